@@ -85,10 +85,18 @@ impl G {
                     s
                 }
             }
-            G::Opt(a) => format!("{}?", a.lark(2)),
-            G::Star(a) => format!("{}*", a.lark(2)),
-            G::Plus(a) => format!("{}+", a.lark(2)),
-            G::Rep(a, m, n) => format!("{}{{{},{}}}", a.lark(2), m, n),
+            G::Opt(a) => format!("{}?", a.operand()),
+            G::Star(a) => format!("{}*", a.operand()),
+            G::Plus(a) => format!("{}+", a.operand()),
+            G::Rep(a, m, n) => format!("{}{{{},{}}}", a.operand(), m, n),
+        }
+    }
+
+    fn operand(&self) -> String {
+        if matches!(self, G::Opt(_) | G::Star(_) | G::Plus(_) | G::Rep(..)) {
+            format!("({})", self.lark(0))
+        } else {
+            self.lark(2)
         }
     }
 
